@@ -248,7 +248,7 @@ func r072(c *Ctx, r *R) {
 		fld, _ := fieldLoad(l.X)
 		return fld != nil && fld.Name() == "RPCPolicy"
 	}
-	leaves := returnLeaves(auth, 0)
+	leaves := returnLeavesDeep(auth, 0) // through a helper extracted from the closure
 	if len(leaves) == 0 {
 		r.Und("authF:returns", auth.Pos(), "no return found")
 	}
@@ -294,13 +294,13 @@ func r072(c *Ctx, r *R) {
 	r.Check(nTrust >= 1, "authF:has-trusted-path", auth.Pos(), "a trusted path exists", "no path consults IsTrustedPeer: trusted endpoints are unreachable or decided otherwise")
 	// lookup key is svc + "." + method
 	keyOK := false
-	instrs(auth, func(i ssa.Instruction) {
+	instrsDeep(auth, func(i ssa.Instruction) {
 		l, ok := i.(*ssa.Lookup)
 		if !ok {
 			return
 		}
-		// X + "." + Y
-		if b, ok := l.Index.(*ssa.BinOp); ok && b.Op == token.ADD {
+		// X + "." + Y (the key may reach a helper as its parameter)
+		if b, ok := strip(l.Index).(*ssa.BinOp); ok && b.Op == token.ADD {
 			if b2, ok := b.X.(*ssa.BinOp); ok && b2.Op == token.ADD {
 				dot, _ := constString(b2.Y)
 				if paramIndex(auth, b2.X) == 1 && dot == "." && paramIndex(auth, b.Y) == 2 {
